@@ -494,6 +494,11 @@ func genParserCases(focus string) func(r *rand.Rand, tier string, env *Env) []Ca
 				}
 				// acyclic by construction: x may use y,z; y may use z; z uses nothing
 				kv[2], kv[4], kv[6] = []byte(pick(r, []string{"1", "{{y}}2", "{{z}}{{y}}"})), []byte(pick(r, []string{"3{{z}}", "4"})), []byte(pick(r, []string{"5", "{3}", "{{q}}"}))
+				if i%9 == 3 {
+					// computed names (outside C07's quantifier, inside the tie's): the visiting order is the sorted one
+					kv[0] = []byte("{{x}}y}}|{{x}}z}}|{{z}}\n")
+					kv[2], kv[4], kv[6] = []byte("{{"), []byte(pick(r, []string{"Y", "{{z"})), []byte(pick(r, []string{"Z", "}}"}))
+				}
 				c.Ops = append(c.Ops, Op{"parse.expand", kv})
 			}
 			cases = append(cases, c)
